@@ -23,7 +23,6 @@ sufficient decrease.
 
 import logging
 import warnings
-from copy import copy
 from typing import Optional
 
 import numpy as np
@@ -249,6 +248,9 @@ def line_search(
         return sf.grad(np.clip(x0 + alpha * d, lb, ub)).dot(d)
 
     task = b"START"
+    # lowest trial so far: only a step going strictly downhill can be accepted
+    best_stp: Optional[float] = None
+    best_f: float = f0
     f_m1 = f0
     dphi_m1 = dphi0
     _iter = 0
@@ -291,12 +293,11 @@ def line_search(
             )
 
         if task[:2] == b"FG":
-            stp_old: float = copy(steplength_0)
-            f_m1_old: float = copy(f_m1)
             steplength_0 = steplength
             f_m1, dphi_m1 = sf.fun_and_grad(np.clip(x0 + steplength * d, lb, ub))
             dphi_m1 = dphi_m1.dot(d)
-            best_stp = steplength if f_m1 < f_m1_old else stp_old
+            if f_m1 < best_f:
+                best_stp, best_f = steplength, f_m1
         else:
             break
         _iter += 1
@@ -310,6 +311,10 @@ def line_search(
             return None
 
     if task[:4] != b"CONV" and task[:4] != b"WARN":
+        return None
+
+    # no trial was better than the starting point: the line search has failed
+    if best_stp is None:
         return None
 
     steplength = best_stp
